@@ -32,6 +32,8 @@ type caseOut struct {
 	// blocking builtin (read, wait, select) or a loop whose condition is such a read (class
 	// blocked_last_statement_returns_nil of KF-C31-3)
 	BlockedLast bool       `json:"blocked_last"`
+	Pre         string     `json:"pre,omitempty"`          // program run first on the same Runner, own live context
+	ExecKillMs  *int       `json:"exec_kill_ms,omitempty"` // real external children via DefaultExecHandler(ms)
 	Go          hxc26.Resp `json:"go"`
 }
 
@@ -161,6 +163,24 @@ func wrap(r *rand.Rand, t tmpl) tmpl {
 
 var cancelTimes = []int{0, 1, 3, 10, 30, 100, 250}
 
+// programs whose main thread sits in a REAL external child (harmless: sleep) when the context is cancelled;
+// run through interp.DefaultExecHandler(t) for several kill timeouts t
+var execBases = []tmpl{
+	{kind: "exec_sleep", src: "sleep 30"},
+	{kind: "exec_sleep_ignores_int", src: `/bin/sh -c 'trap "" INT; sleep 30'`},
+	{kind: "exec_sleep_in_func_loop", src: "f() { while :; do sleep 30; done; }; f"},
+	{kind: "exec_sleep_ignores_int_in_subst", src: `x=$(/bin/sh -c 'trap "" INT; sleep 30'); echo $x`},
+	{kind: "exec_sleep_bg_wait", src: "sleep 30 & wait"},
+}
+var execKillMs = []int{-1, 0, 150, 2000}
+
+// preludes: a first program run on the same Runner with another, still alive, context
+var preludes = []string{
+	"echo warm $(echo up)",
+	"v=$(echo 1); f0() { echo $(echo in); }; f0",
+	"while read l; do :; done < <(echo x)",
+}
+
 func main() {
 	if len(os.Args) > 1 && os.Args[1] == "worker" {
 		hxc26.WorkerMain()
@@ -173,6 +193,19 @@ func main() {
 		r := hx.Rand(o.Seed, 31)
 		var cases []caseOut
 		var reqs []hxc26.Req
+		addExec := func(t tmpl, ms int, kill int) {
+			k := kill
+			cases = append(cases, caseOut{Src: t.src, Kind: t.kind, CancelMs: ms, ExecKillMs: &k, BlockedLast: blockedLast(t.src)})
+			extra := 0
+			if kill > 0 {
+				extra = kill
+			}
+			reqs = append(reqs, hxc26.Req{Src: t.src, CancelMs: ms, TimeoutMs: ms + 60000, HardMs: ms + extra + 6500, ExecKillMs: &k})
+		}
+		addPre := func(t tmpl, ms int, pre string) {
+			cases = append(cases, caseOut{Src: t.src, Kind: t.kind + "+reuse", Class: t.class, CancelMs: ms, Stdin: t.stdin, BlockedLast: blockedLast(t.src), Pre: pre})
+			reqs = append(reqs, hxc26.Req{Src: t.src, CancelMs: ms, TimeoutMs: ms + 60000, HardMs: ms + 6500, Stdin: t.stdin, Pre: pre})
+		}
 		add := func(t tmpl, ms int) {
 			cases = append(cases, caseOut{Src: t.src, Kind: t.kind, Class: t.class, CancelMs: ms, Stdin: t.stdin, BlockedLast: blockedLast(t.src)})
 			// the context deadline is far behind the cancellation; the worker's watchdog fires
@@ -183,8 +216,29 @@ func main() {
 		for i, t := range bases {
 			add(t, cancelTimes[(i+int(o.Seed))%len(cancelTimes)])
 		}
-		for i := len(bases); i < o.N; i++ {
-			add(wrap(r, bases[r.IntN(len(bases))]), cancelTimes[r.IntN(len(cancelTimes))])
+		// the Runner reused for a second Run with another context (no Reset): every base that loops or blocks
+		// inside a command/process substitution, plus a rotating third of the others
+		for i, t := range bases {
+			inSubst := strings.Contains(t.src, "$(") || strings.Contains(t.src, "<(") || strings.Contains(t.src, ">(")
+			if t.class == "" && (inSubst || (i+int(o.Seed))%3 == 0) {
+				addPre(t, cancelTimes[(i+2*int(o.Seed))%len(cancelTimes)], preludes[(i+int(o.Seed))%len(preludes)])
+			}
+		}
+		// real external children x kill timeouts (cancel after the child has surely started)
+		for i, t := range execBases {
+			for j, k := range execKillMs {
+				if (i+j+int(o.Seed))%2 == 0 || o.N > 200 {
+					addExec(t, 150+50*((i+j)%3), k)
+				}
+			}
+		}
+		for i := len(cases); i < o.N; i++ {
+			t := wrap(r, bases[r.IntN(len(bases))])
+			if t.class == "" && r.IntN(4) == 0 {
+				addPre(t, cancelTimes[r.IntN(len(cancelTimes))], preludes[r.IntN(len(preludes))])
+			} else {
+				add(t, cancelTimes[r.IntN(len(cancelTimes))])
+			}
 		}
 		resps := hxc26.Pool{N: 8}.RunAll(reqs)
 		// a slow return under load is not a verdict: re-run alone before it counts
